@@ -301,6 +301,15 @@ def _check_staged(case, ctx):
     uri, body_kind = case["uri"], case["body"]
     body = _payload() if body_kind == "payload" else case.get("junk", b"not a beacon")
     req = None if uri is None else HttpRequest(method=case.get("method", b"GET"), uri=uri.encode("latin-1"), params={}, headers={}, body=b"")
+    if case.get("via_wire") and uri is not None:
+        # the way a capture is processed: the request object comes from parse_raw_http() on the bytes of the request
+        from dissect.cobaltstrike.c2 import parse_raw_http
+
+        try:
+            req = parse_raw_http(case.get("method", b"GET") + b" " + uri.encode("latin-1") + b" HTTP/1.1\r\nHost: h\r\n\r\n")
+        except ValueError:
+            ctx.ok(fp=("staged-unparsed", uri), nontrivial=False, case=case, classes=("staged:unparsed-request",))
+            return
     resp = HttpResponse(status=200, headers={}, reason=b"OK", body=body, request=req)
     calls = []
     real = pcap.BeaconConfig.from_bytes
@@ -338,7 +347,8 @@ def _check_staged(case, ctx):
             ctx.violation("staged.result", "wrong configuration returned", case)
             return
         cls = "staged:inspected"
-    ctx.ok(fp=("staged", uri, body_kind, case.get("method")), case=case, classes=(cls, f"staged:body={body_kind}", f"staged:verb={case.get('method', b'GET').decode()}"))
+    ctx.ok(fp=("staged", uri, body_kind, case.get("method"), bool(case.get("via_wire"))), case=case,
+           classes=(cls, f"staged:body={body_kind}", f"staged:verb={case.get('method', b'GET').decode()}", "staged:request-from-wire" if case.get("via_wire") else "staged:request-object"))
 
 
 # ---- generators ---------------------------------------------------------------------------------
@@ -451,7 +461,7 @@ def run_shard(shard, ctx):
                     check_case({"op": "gen", "length": length, "x64": x64, "seed": rng.getrandbits(32)}, ctx)
     elif kind == "staged":
         alnum = string.ascii_letters + string.digits
-        fixed = [None, "/", "", "/index.html", "/a/b/c/d", "/abcd\n", "/\xffTOKn", "/TOKn\x80", "/\xe9oOo0", "/oOo0\x80"]
+        fixed = [None, "/", "", "/index.html", "/a/b/c/d", "/abcd\n", "/\xffTOKn", "/TOKn\x80", "/\xe9oOo0", "/oOo0\x80", "\x01/TOKn", "\x1f\x01/oOo0", "\x02TOKn", "//nn\x80"]
         for i in range(shard["n"]):
             r = rng.random()
             if i < len(fixed):
@@ -467,9 +477,12 @@ def run_shard(shard, ctx):
             if rng.random() < 0.2 and uri:
                 pos = rng.randrange(0, len(uri) + 1)
                 uri = uri[:pos] + rng.choice(["\x80", "\xff", "\xe9"]) + uri[pos:]  # a byte >= 0x80 somewhere in a (stager-looking) URI
+            if rng.random() < 0.1 and uri:
+                uri = rng.choice(["\x01", "\x02", "\x1f\x01", "\x7f"]) + uri  # a control character in front of the slash
+            wire_ok = uri is not None and uri != "" and not any(ch in uri for ch in " \t\n\r\x0b\x0c?#")
             for body in ("payload", "junk"):
                 check_case({"op": "staged", "uri": uri, "body": body, "junk": _rbytes(rng, rng.randrange(0, 64)),
-                            "method": rng.choice([b"GET", b"GET", b"POST", b"HEAD", b"get", b"PUT"])}, ctx)
+                            "method": rng.choice([b"GET", b"GET", b"POST", b"HEAD", b"get", b"PUT"]), "via_wire": wire_ok and rng.random() < 0.6}, ctx)
     else:
         raise ValueError(kind)
 
